@@ -19,7 +19,17 @@ class Violation:
         return {"sig": self.sig, "msg": self.msg, "replay": self.replay}
 
 
+class ViolationStorm(BaseException):
+    """Raised by Report.violation when one shard has recorded STORM violations; carries the report so far."""
+
+    def __init__(self, report):
+        super().__init__("violation storm")
+        self.report = report
+
+
 class Report:
+    STORM = 20000
+    STORM_SIG = 150  # ... or 150 of one structural signature
     """Counters + violations for one shard (or the merged whole)."""
 
     MAX_PER_SIG = 3
@@ -63,6 +73,11 @@ class Report:
 
     def violation(self, sig, msg, replay):
         self.viol_counts[sig] = self.viol_counts.get(sig, 0) + 1
+        self._nviol = getattr(self, "_nviol", 0) + 1
+        if self._nviol == self.STORM or self.viol_counts[sig] == self.STORM_SIG:
+            # thousands of violations in one shard: the verdict is clear, going on only burns time (a broken library is often a slow one too)
+            self.cap(f"shard stopped after {self._nviol} violations")
+            raise ViolationStorm(self)
         lst = self.violations.setdefault(sig, [])
         if len(lst) < self.MAX_PER_SIG:
             lst.append(Violation(sig, msg, replay))
